@@ -14,6 +14,7 @@ EXPLANATION = (
     "(R-C10-announce) every function of MqttState that returns a packet announces it with exactly one Event::Outgoing of the matching kind on that path, nothing but AwaitAck is announced without a packet, "
     "and a packet returned by a callee inside MqttState always flows into the caller's own return value; "
     "(R-C10-unsolicited) each of the four ack handlers has an Err(Unsolicited) exit taken when its table lookup fails. "
+    "(R-C10-readb) in Network::readb every frame result stored from the framed stream is matched before the function returns (no frame pulled with now_or_never is abandoned by a later break) and the Some arm reaches handle_incoming_packet; "
     "NOT decided: wire order of surfaced events under arbitrary batching; v5 topic-alias values.")
 ASSUMPTIONS = ["rustc MIR construction is correct; rules/ext_api.json", "Request values other than the ones the Client API builds are not enqueued by the application (unimplemented!() arm audited)"]
 TECHNIQUE = "static analysis: MIR may-panic inventory with index-guard discharges, dominance rules, per-path effect enumeration (announcement/packet pairing), provenance of packet ids"
@@ -37,6 +38,7 @@ def run(ctx):
         ctx.guarded("R-C10-acks", acks, ctx, prog, ver)
         ctx.guarded("R-C10-announce", announce, ctx, prog, ver)
         ctx.guarded("R-C10-unsolicited", unsolicited, ctx, prog, ver)
+        ctx.guarded("R-C10-readb", readb_no_frame_dropped, ctx, prog, ver)
 
 
 def capacity(ctx, prog, ver):
@@ -304,3 +306,42 @@ def unsolicited(ctx, prog, ver):
             ctx.ok(rule, b.id, "has an Err(StateError::Unsolicited) exit (%d sites)" % len(errs))
         else:
             ctx.violation(rule, b.id, "no Unsolicited exit", "%s no longer reports an ack it did not solicit as StateError::Unsolicited" % name, site=b.fn_loc())
+
+
+def readb_no_frame_dropped(ctx, prog, ver):
+    """'surfaces each received packet exactly once': in Network::readb every frame result taken from the
+    framed stream is examined (the `match res`) before the function returns — a frame pulled with
+    next().now_or_never() must not be abandoned by a later `break`; and the Some(Ok(packet)) arm hands the packet
+    to MqttState::handle_incoming_packet."""
+    rule = "R-C10-readb"
+    pre = dict((v[0], v[3]) for v in VERSIONS)[ver]
+    b = prog.one("^" + re.escape(pre) + r"readb::\{closure#0\}$")
+    cands = [i for i in range(len(b.locals)) if re.search(r"^std::option::Option<std::result::Result<.*Packet, .*Error>>$", b.local_ty(i))]
+    best = None
+    for L in cands:
+        sws = [sw for sw in discr_switches(b) if sw[4] and sw[4]["l"] == L and not sw[4].get("p")]
+        ass = [bi for bi, blk in enumerate(b.blocks) if not blk.get("cleanup") for st in blk["s"] if "lhs" in st and st["lhs"]["l"] == L and not st["lhs"].get("p")]
+        if sws and len(ass) >= 2:
+            best = (L, sws, ass)
+    if best is None:
+        raise AnchorMissing("readb (%s): the frame-result local (assigned from framed.next() and matched) was not found" % ver)
+    L, sws, ass = best
+    rets = set(return_blocks(b))
+    leak = reachable_after(b, ass, avoid_blocks=tuple(sw[0] for sw in sws)) & rets
+    # an assignment block that itself returns? (not possible: assignments are followed by gotos)
+    if leak:
+        ctx.violation(rule, b.id, "frame pulled but not processed",
+                      "readb can return after it has stored a frame taken from the stream without examining it: that packet is neither surfaced to the user nor acknowledged (it is dropped with the local)",
+                      site=b.loc(b.blocks[ass[-1]]["t"].get("sp")))
+    else:
+        ctx.ok(rule, b.id, "every frame result stored from the stream is matched before readb returns", site=b.fn_loc())
+    hip = [bb for bb, t in b.calls() if callee_path(t).endswith("MqttState::handle_incoming_packet") and not b.is_cleanup(bb)]
+    some_ok = None
+    for sw in sws:
+        st_ = variant_target(sw, "Some")
+        if st_ is not None:
+            some_ok = st_
+    if hip and some_ok is not None and all(hb in reachable(b, (some_ok,)) for hb in hip):
+        ctx.ok(rule, b.id, "the Some(..) arm of the frame match reaches handle_incoming_packet", site=b.loc(b.blocks[hip[0]]["t"].get("sp")))
+    else:
+        ctx.violation(rule, b.id, "decoded packet not handled", "readb no longer passes decoded packets to MqttState::handle_incoming_packet", site=b.fn_loc())
